@@ -627,6 +627,10 @@ def run_c16(rep, tier, seed):
             ("a large reply being written to a reading client", ["c.open a", f"c.send a {SET(b'big', big)}", "c.read a 1 8000", f"c.send a {GET(b'big')}"],
              ["srv.signal", "srv.wait 10000", "c.readall a 8000"],
              {1: "returned", 2: f"whole-or-none:{len(big)}"}, []),
+            ("pipelined GETs of an 8 KiB value with the first one held in the store: replies cross the write buffer",
+             ["c.open a", "c.sendbig a 6b ab 8192", "c.read a 1 8000", "ctl.block on", "c.send a " + GET(b"k") * 32, "ctl.entered 1 5000"],
+             ["srv.signal", "sleep 100", "ctl.block off", "srv.wait 10000", "c.readall a 8000"],
+             {3: "returned", 4: "multiple-of:8201"}, []),
             ("several connections in different states at once", ["c.open i", "c.open h", "c.send h 2a320d0a2433", "c.open w", "ctl.block on", f"c.send w {SET(b'y', b'2')}", "ctl.entered 1 5000"],
              ["srv.signal", "sleep 100", "ctl.block off", "srv.wait 10000", "c.readraw i 3000", "c.readraw h 3000", "c.readraw w 3000", "kv.get 79"],
              {3: "returned", 4: "- end", 5: "- end", 6: "2b4f4b0d0a end", 7: "32"}, []),
@@ -669,6 +673,12 @@ def run_c16(rep, tier, seed):
                         if nrep > j and base + ki < len(ans) and ans[base + ki] != val:
                             ok = False
                             a = a + f" / but the SET acknowledged by reply {j + 1} is not in the store ({ans[base + ki]})"
+            elif want.startswith("multiple-of:"):
+                # only whole replies of the given length, then end of stream
+                unit = int(want.split(":")[1])
+                mm = re.match(r"(-|#(\d+):\S+|[0-9a-f]+) (eof|reset)", a)
+                nbytes = 0 if not mm or mm.group(1) == "-" else (int(mm.group(2)) if mm.group(2) else len(mm.group(1)) // 2)
+                ok = bool(mm) and nbytes % unit == 0
             elif want.startswith("whole-or-none:"):
                 n = int(want.split(":")[1])
                 # the reply to GET big: either not started, or complete ($n CRLF payload CRLF); never torn
@@ -750,8 +760,14 @@ def run_c11(rep, tier, seed):
           f"c.send b {GETk}", "c.read b 1 5000", "np.release", "c.read a 1 5000", f"c.send b {GETk}", "c.read b 1 5000"],
          lambda a: (a[6] == "parked put.before_publish" and a[8] == "B:76" and a[10] == "S:4f4b" and a[12] == "B:77", "GET -> v while parked, +OK, then GET -> w")),
     ]
+    forced.append(
+        ("a client's GET is between index lookup and file read while another client's SET is acknowledged and a full merge pass runs",
+         ["c.open a", "c.open b", f"c.send a {SETk}", "c.read a 1 5000", "kv.merge", "np.park get.lookup 1", f"c.send a {GETk}", "np.wait 5000",
+          "c.send b " + req_bytes(("SET", b"k", b"w")).hex(), "kv.merge.bg", "sleep 400", "np.release", "c.read a 1 5000", "c.read b 1 5000", "kv.merge.join 5000",
+          f"c.send b {GETk}", "c.read b 1 5000"],
+         lambda a: (a[7] == "parked get.lookup" and a[12] in ("B:76", "B:77") and a[13] == "S:4f4b" and a[14] == "done ok" and a[16] == "B:77", "GET -> v or w (never an error / dropped connection), SET -> +OK, merge ok, GET -> w")))
     for name, steps, pred in forced:
-        script = ["srv.start max=16 mfs=1000000 pool=2"] + steps + ["srv.stop"]
+        script = ["srv.start max=16 mfs=0 pool=2 frag=0/1 dead=0 small=1099511627776"] + steps + ["srv.stop"]
         shutil.rmtree(root, ignore_errors=True)
         try:
             ans = run_harness(["net", "--root", root, "--hang-ms", "30000"], script, timeout=120)
